@@ -16,18 +16,18 @@ import (
 
 type C20Case struct {
 	Cycles   int   `json:"cycles"`
-	States   []int `json:"states"`    // per connection: 0 idle, 1 pipeline written but not read, 2 inside MULTI with queued writes, 3 blocked in BLPOP 0, 4 blocked in BLMOVE 0, 5 half a command sent
+	States   []int `json:"states"`    // per connection: 0 idle, 1 pipeline written but not read, 2 inside MULTI with queued writes, 3 blocked in BLPOP 0, 4 blocked in BLMOVE 0, 5 half a command sent, 6 pipeline whose replies exceed the socket buffers, not read
 	TwoStep  bool  `json:"two_step"`  // RequestTermination + WaitForTermination instead of Close
 	Second   bool  `json:"second"`    // a second emulator instance is alive at the same time
 	KillKind int   `json:"kill_kind"` // which CLIENT KILL filter the first instance issues while the second is alive
 }
 
-var c20StateNames = []string{"idle", "pipeline-unread", "inside-MULTI", "blocked-BLPOP", "blocked-BLMOVE", "mid-frame"}
+var c20StateNames = []string{"idle", "pipeline-unread", "inside-MULTI", "blocked-BLPOP", "blocked-BLMOVE", "mid-frame", "big-replies-unread"}
 
 func c20Gen(t *rapid.T) C20Case {
 	c := C20Case{Cycles: rapid.IntRange(1, 3).Draw(t, "cycles"), TwoStep: rapid.Bool().Draw(t, "twostep"), Second: rapid.IntRange(0, 2).Draw(t, "second") == 0, KillKind: rapid.IntRange(0, 3).Draw(t, "kill")}
 	for n := rapid.IntRange(0, 6).Draw(t, "conns"); n > 0; n-- {
-		c.States = append(c.States, rapid.IntRange(0, 5).Draw(t, "state"))
+		c.States = append(c.States, weighted(t, "state", []int{4, 3, 3, 3, 3, 3, 1}))
 	}
 	return c
 }
@@ -95,9 +95,23 @@ func c20Run(c C20Case, st *kit.Stats) error {
 			case 5:
 				full := kit.EncodeCmd("SET", "half"+strconv.Itoa(i), "value")
 				cn.Write(full[:len(full)/2])
+			case 6:
+				// the server ends up stuck in a write to a client that is not reading
+				admin.Do("SET", "big", strings.Repeat("B", 1<<20))
+				var buf []byte
+				for j := 0; j < 64; j++ {
+					buf = append(buf, kit.EncodeCmd("GET", "big")...)
+				}
+				cn.Write(buf)
 			}
 		}
 		time.Sleep(5 * time.Millisecond) // let the blocking commands reach the server
+		for _, s := range c.States {
+			if s == 6 {
+				time.Sleep(400 * time.Millisecond) // until the socket buffers are full and the server is stuck in a write
+				break
+			}
+		}
 		admin.Close()
 
 		// terminate
